@@ -22,6 +22,12 @@ CHECK = {
          "shards": {"quick": 16, "thorough": 16}, "budget_s": {"quick": 60, "thorough": 900}},
         {"name": "c16-builder", "pkg": TR, "rewrite": [TR], "harness": H, "test": "^TestVerifC16Builder$", "gomaxprocs": 1,
          "shards": {"quick": 16, "thorough": 16}, "budget_s": {"quick": 60, "thorough": 900}},
+        {"name": "c16-programs-unlockgates", "pkg": TR, "rewrite": [TR], "harness": H, "test": "^TestVerifC16Programs$", "gomaxprocs": 1,
+         "tiers": ["thorough"], "env": {"VERIF_GATE_UNLOCK": "1", "VERIF_TIER_OVERRIDE": "quick"},
+         "shards": {"quick": 16, "thorough": 16}, "budget_s": {"quick": 60, "thorough": 240}},
+        {"name": "c16-builder-unlockgates", "pkg": TR, "rewrite": [TR], "harness": H, "test": "^TestVerifC16Builder$", "gomaxprocs": 1,
+         "tiers": ["thorough"], "env": {"VERIF_GATE_UNLOCK": "1", "VERIF_TIER_OVERRIDE": "quick"},
+         "shards": {"quick": 16, "thorough": 16}, "budget_s": {"quick": 60, "thorough": 240}},
         {"name": "c16-race", "pkg": TR, "harness": H, "test": "^TestVerifC16Race$", "race": True, "tiers": ["thorough"],
          "shards": {"quick": 8, "thorough": 16}, "budget_s": {"quick": 60, "thorough": 600}},
     ],
